@@ -20,6 +20,7 @@ from .. import core
 from ..core import cz, clist, cbool, cR, cQ
 from ..runner import Entry, differential, corpus_cases
 from . import c19_rng
+from . import c19_translate
 
 PRE_Q = ("From Coq Require Import QArith.\nFrom EsVerif.Common Require Import Base.\n"
          "From EsVerif.C19 Require Import ModelQ Spec Exec.\n")
@@ -382,9 +383,10 @@ def geometry(ctx, replay_case=None):
         if predict(it[0], it[1], it[2], it[3]):
             good.append(it)
             continue
-        key = (it[0]["kind"], it[3])
+        fam = it[0].get("family", "")
+        key = (it[0]["kind"], it[3], fam if fam.startswith("corpus:") else "*")     # every corpus witness family gets its own
         nsus[key] = nsus.get(key, 0) + 1
-        (suspect if nsus[key] <= SUSPECT_MAX or replay_case is not None else skipped).append(it)
+        (suspect if nsus[key] <= (2 if key[2] != "*" else SUSPECT_MAX) or replay_case is not None else skipped).append(it)
     ctx.count("prescreen:predicted-to-hold", len(good))
     ctx.count("prescreen:predicted-to-fail", len(suspect) + len(skipped))
     res = core.coq_lemmas(ctx.work + "/geo", PRE_R, [it[4] for it in good], shard=ctx.n(24, 30), tag="geo") if good else []
@@ -415,7 +417,7 @@ def geometry(ctx, replay_case=None):
                 "returned radius is not its separation (1e-9 deg)" if c["kind"] == "cap"
                 else "randsphere: returned point is outside the requested box")
         key = (what, refuted.get(k, False), c.get("family"))
-        if key in seen or len(seen) >= 6:
+        if key in seen or len(seen) >= 10:
             continue
         seen.add(key)
         nmore = sum(1 for s_ in skipped if s_[0]["kind"] == c["kind"] and s_[3] == "property")
@@ -580,7 +582,7 @@ class GeneratorEntry(ParEntry):
         if round == 0:
             cs.append({"mode": "table", "x": [0.0, 1.0, 3.0], "p": [1.0, 2.0, 1.0], "us": [1 / 3, 2 / 3, 0.5, 1.0, 0.0],
                        "nodes": [0, 1], "gen": "stub_legacy", "scalar": False, "family": "hand"})
-            for n in (3, 4, 5, 17):
+            for n in ((3, 5, 17) if ctx.quick() else (3, 4, 5, 17)):
                 for gk in ("uniform", "integers", "irregular"):
                     for dk in ("flat", "wide", "small-integers", "random"):
                         cs.append(one(n, gk, dk))
@@ -598,8 +600,8 @@ class GeneratorEntry(ParEntry):
             c = one(6, "uniform", "random", fam="no-deviates")
             c["us"], c["nodes"] = [], []
             cs.append(c)
-        for _ in range(ctx.n(60, 900)):
-            n = r.choice([3, 4, 6, 10, 25, r.randrange(3, ctx.n(40, 120))])
+        for _ in range(ctx.n(36, 900)):
+            n = r.choice([3, 4, 6, 10, 25, r.randrange(3, ctx.n(25, 120))])
             cs.append(one(n, r.choice(["uniform", "integers", "irregular"]), r.choice(["flat", "wide", "small-integers", "random"]),
                           mode=r.choice(["table", "table", "func_x", "func_range"]), nus=r.choice([2, 6, 12])))
         return cs
@@ -768,6 +770,57 @@ class RandomIndices(ParEntry):
         return c["nrand"] >= 2 and c["imax"] >= 2
 
 
+# ======================================================================================
+# source tie: formula chains regenerated from the source, proved equal to the hand model
+# ======================================================================================
+
+def source_tie(ctx):
+    import esutil
+    root = os.path.dirname(os.path.dirname(os.path.abspath(esutil.__file__)))
+    ctx.checker_cmds.append("coqc <gen_* definitions translated from esutil/coords.py; forall args, gen_f args = Model.f args by reflexivity>")
+    try:
+        defs, lemmas, facts = c19_translate.translate(root)
+    except (c19_translate.Untranslatable, SyntaxError, OSError, ValueError, IndexError, AttributeError) as e:
+        ctx.obligation("tie:translate esutil/coords.py", False, "%s: %s" % (type(e).__name__, e))
+        ctx.violation("source tie broken: esutil/coords.py (randsphere / randcap / rotate) is outside the subset the fail-closed "
+                      "translator accepts: %s" % str(e)[:300],
+                      {"kind": "source-tie", "error": "%s: %s" % (type(e).__name__, e),
+                       "no_longer_checks": "C19 tie: regenerated formula chain = C19/Model.v (theorems are about Model.v)"},
+                      found_input=False)
+        return
+    ctx.obligation("tie:translate esutil/coords.py", True, "")
+    res = core.coq_lemmas(ctx.work + "/tie", c19_translate.PRE + defs, lemmas, shard=len(lemmas), tag="tie")
+    bad = []
+    for (st, _pr), (ok, msg) in zip(lemmas, res):
+        ctx.obligation("tie:" + st.split(",")[1].strip()[:90], ok, msg)
+        if not ok:
+            bad.append((st, msg))
+    # rational side: stat.interplin re-translated; numpy-level statements of random.py pinned
+    try:
+        qdefs, qlem = c19_translate.translate_q(root)
+        pins = c19_translate.check_pins(root)
+    except (c19_translate.Untranslatable, SyntaxError, OSError, ValueError, IndexError, AttributeError) as e:
+        qdefs, qlem, pins = "", [], ["translate stat.interplin: %s" % e]
+    if qlem:
+        qres = core.coq_lemmas(ctx.work + "/tieq", c19_translate.PRE_QT + qdefs, qlem, shard=len(qlem), tag="tieq")
+        for (st, _pr), (ok, msg) in zip(qlem, qres):
+            ctx.obligation("tie:" + st.split(",")[1].strip()[:90], ok, msg)
+            if not ok:
+                bad.append((st, msg))
+        defs = defs + "\n" + qdefs
+    ctx.obligation("tie:pinned statements of esutil/random.py (%d functions)" % len(c19_translate.PINS), not pins, "; ".join(pins))
+    for pn in pins:
+        bad.append(("source text the hand model ModelQ.v was written from has changed: " + pn, ""))
+    lemmas = lemmas + qlem
+    ctx.count("source-tie lemmas", len(lemmas))
+    if bad:
+        ctx.violation("source tie broken: the formula chain regenerated from esutil/coords.py is no longer the model the theorems "
+                      "are about (%d of %d equalities fail; first: %s)" % (len(bad), len(lemmas), bad[0][0][:120]),
+                      {"kind": "source-tie", "failed": [b[0] for b in bad], "coq": bad[0][1][-1200:], "regenerated": defs,
+                       "no_longer_checks": "C19 tie: regenerated formula chain = C19/Model.v"},
+                      found_input=False)
+
+
 ENTRIES = [SkyDiscrete(), GeneratorEntry(), CholeskyEntry(), RandomIndices()]
 
 TRUSTED = [
@@ -777,8 +830,16 @@ TRUSTED = [
     "`interval` additionally on the stdlib FloatAxioms.* / Uint63 specifications of the primitive floats/ints Interval "
     "computes with; sampler / Cholesky / index theorems (style Q) are closed under the global context",
     "hand-written models C19/Model.v (randsphere, randcap both branches, rotate, atbound over R) and C19/ModelQ.v "
-    "(cumulative table, interplin, Cholesky sampler over Q), tied to the working tree by per-case certificates / "
-    "verdict terms on every run (bounded by the generators); the model describes the code after the repairs in fixes/C19",
+    "(cumulative table, interplin, Cholesky sampler over Q).  Model.v is tied to the source twice: (i) the statement chains "
+    "of randsphere, randcap (both branches, pole threshold, recursive call) and rotate are re-translated from "
+    "esutil/coords.py on every run by the fail-closed translator harness/props/c19_translate.py and proved equal to the "
+    "hand model by reflexivity (7 equalities); (ii) per-case certificates on the real outputs.  ModelQ.v is tied by "
+    "verdict terms on every run (bounded by the generators).  The model describes the code after the repairs "
+    "fixes/C19/0001, 0002 and fixes/C09/0004 (rotate)",
+    "translator trusted for: the reading of numpy calls (np.deg2rad(x, x) as in-place d2r, np.clip(v, lo, hi, v) as "
+    "min(max), rng.uniform(low, high) as low + (high-low)*u, k-th generator call = k-th deviate, atbound(x, 0, 360) as "
+    "Model.atbound whose loops run at most once for |x| <= 720 (proved: atbound_once)), and for skipping the listed "
+    "shape-handling statements (ndarray promotion, scalar unwrapping, rng default)",
     "assumed, monitored per case: numpy.linalg.cholesky returns a lower-triangular M with M M^T = cov (oracle; "
     "chol_oracle_b); rng.uniform(low, high) = low + (high-low)*u for both generator families (stub generators implement "
     "it; seeded real generators are compared through twin deviates)",
@@ -805,6 +866,10 @@ def run(ctx, replay=None):
     if replay is not None and replay.get("kind") == "geometry-case":
         geometry(ctx, replay["case"])
         return
+    if replay is not None and replay.get("kind") == "source-tie":
+        source_tie(ctx)
+        return
     if replay is None:
+        source_tie(ctx)
         geometry(ctx)
     differential(ctx, PRE_Q, ENTRIES, replay)
